@@ -43,13 +43,16 @@ struct Case {
     after: usize,
 }
 
-const FAULTS: [(&str, &str, bool); 20] = [
+const FAULTS: [(&str, &str, bool); 22] = [
     ("unknown-name", "no_such_name", false),
     ("type-mismatch", "idf(1) + idf(\"s\")", false),
     ("missing-field", "{a = 1}.b", false),
     ("missing-index", "[1, 2].5", false),
     ("unhandled-select", "select (\"zz\") => {a = 1}", false),
     ("failed-cast", "int(\"x\")", false),
+    // the outer cast keeps the slot an int for the static checker; the inner cast fails at run time
+    ("failed-cast-to-float-inside-cast", "int(float(\"x\"))", false),
+    ("failed-cast-to-bool-inside-cast", "int(bool(\"maybe\"))", false),
     ("fail-expression", "fail \"boom\"", false),
     ("static-type-mismatch", "1 + \"s\"", false),
     ("division-by-zero", "1 / (2 - 2)", false),
@@ -353,7 +356,7 @@ impl Property for C17 {
         "C17"
     }
     fn rule(&self) -> String {
-        "valid programs of 3..12 multi-line statements (tuple literals, select with and without default, function definitions, direct calls, functions applied through reduce, arithmetic chains, map with a callback, copy expressions, format expressions, module definitions and instantiations; random indentation; the fault optionally buried under 1..2 more nesting levels that may span lines) with exactly one fault injected into one expression slot: unknown name, run-time type mismatch, static type mismatch (literal and through a symbol defined elsewhere), wrong argument count, missing field (literal and through a symbol), missing index, unhandled select case, failed cast, fail, division by zero, call of a non-function, and four syntax faults that cannot extend the statement (bad character, adjacent operators, missing operand, stray bracket); at every statement and nesting position (tuple field, list element, call argument, function body, select arm, callback). The program without the fault must evaluate (harness self-check). Through eval_string and through a file build the diagnostic's primary line/column must lie inside the faulty statement's span, a fault in a function body must also list the calling statement in a VIA line, and inserting 1 or 3 lines before / 2 after must shift the line by exactly that much / not at all. Non-trivial: the fault is not in the first statement or not in its first slot; distinct by program.".into()
+        "valid programs of 3..12 multi-line statements (tuple literals, select with and without default, function definitions, direct calls, functions applied through reduce, arithmetic chains, map with a callback, copy expressions, format expressions, module definitions and instantiations; random indentation; the fault optionally buried under 1..2 more nesting levels that may span lines) with exactly one fault injected into one expression slot: unknown name, run-time type mismatch, static type mismatch (literal and through a symbol defined elsewhere), wrong argument count, missing field (literal and through a symbol), missing index, unhandled select case, failed cast (to int; to float and to bool inside an int cast), fail, division by zero, call of a non-function, and four syntax faults that cannot extend the statement (bad character, adjacent operators, missing operand, stray bracket); at every statement and nesting position (tuple field, list element, call argument, function body, select arm, callback). The program without the fault must evaluate (harness self-check). Through eval_string and through a file build the diagnostic's primary line/column must lie inside the faulty statement's span, a fault in a function body must also list the calling statement in a VIA line, and inserting 1 or 3 lines before / 2 after must shift the line by exactly that much / not at all. Non-trivial: the fault is not in the first statement or not in its first slot; distinct by program.".into()
     }
     fn assumptions(&self) -> Vec<String> {
         vec![
